@@ -361,6 +361,15 @@ func (w *world) run() {
 		case "infinity":
 			b = make([]byte, 48)
 			b[0] = 0xC0
+		case "infinity-noncanonical":
+			// the infinity header followed by a non-zero byte (preferably the LAST one)
+			b = make([]byte, 48)
+			b[0] = 0xC0
+			pos := 47
+			if rnd.Intn(3) == 0 {
+				pos = 1 + rnd.Intn(47)
+			}
+			b[pos] = byte(1 + rnd.Intn(255))
 		case "len0":
 			b = []byte{}
 		case "nil":
@@ -401,7 +410,7 @@ func (w *world) run() {
 		w.pool = append(w.pool, thrmodel.Share{Bytes: b, Kind: kind, TrueOf: trueOf})
 		return len(w.pool) - 1
 	}
-	badKinds := []string{"wrongsigner", "othermsg", "notG1", "offcurve", "xlarge", "badheader", "infinity", "len0", "len47", "len49", "negated", "random", "len96", "pair47_49", "pair0_96", "torsion", "nil"}
+	badKinds := []string{"wrongsigner", "othermsg", "notG1", "offcurve", "xlarge", "badheader", "infinity", "len0", "len47", "len49", "negated", "random", "len96", "pair47_49", "pair0_96", "torsion", "nil", "infinity-noncanonical"}
 	w.env.Pool = nil // set after the pool is complete
 	if c.Bool(1, 3, "onekind") {
 		// swarm: only one kind of bad share in this run (so that e.g. ALL retained shares can be empty)
@@ -731,7 +740,7 @@ var (
 	e1CheckErr  error
 )
 
-var undecodable = map[string]bool{"nil": true, "offcurve": true, "xlarge": true, "badheader": true, "len0": true, "len47": true, "len49": true,
+var undecodable = map[string]bool{"infinity-noncanonical": true, "nil": true, "offcurve": true, "xlarge": true, "badheader": true, "len0": true, "len47": true, "len49": true,
 	"len96": true, "pair47_49": true, "pair0_96": true}
 
 func sumMap(m map[string]int) int {
